@@ -145,5 +145,7 @@ def run(repo, check):
     share(check, repo, _c07.rule_r6, 'C03.R10', 'marker values are written with the coding of the element the bitmap of the subset being written designates (shared with '
           'C07.R6)', keep=lambda f: 'Encoder' in f.key)
     share(check, repo, _c08.rule_r5, 'C03.R11', 'an encoder that compiles templates never writes a message with the template of another table version (shared with C08.R5)')
+    from sa.rules import c02 as _c02b
+    share(check, repo, _c02b.rule_roundtrip, 'C03.R12', 'decode then encode on concrete templates gives back the fields that were read (shared with C02.R15)', args=('C03.R12',))
     check.assumptions = ['range refusal itself is bitstring\'s: a value handed to it unchanged that does not fit the field raises (trusted base)',
                          'the half-unit quantisation bound and the byte-identity of repeated round trips are runtime facts and are not decided']
